@@ -107,7 +107,9 @@ func c02(r *Report) {
 	r.Gate(Gate{ID: "C02.inner.signer.subject-nonnil", Fn: sg, Effect: SuccessReturn(), Check: CallCheck(Fn("vcr/credential", "", "PresenterIsCredentialSubject"), 0, NonNil),
 		Alt: []Check{ErrCheck(Fn("vcr/credential", "", "PresentationSigner"))}})
 	r.Gate(Gate{ID: "C02.inner.signer.same-subject", Fn: sg, Effect: SuccessReturn(), Check: CallCheck(Fn("github.com/nuts-foundation/go-did/did", "DID", "Equals"), -1, IsTrue),
-		Alt: []Check{CallCheck(Fn("github.com/nuts-foundation/go-did/did", "DID", "Empty"), -1, IsTrue), ErrCheck(Fn("vcr/credential", "", "PresentationSigner"))}})
+		// no exemption for a presentation without credentials: its signer is compared as well (fix: the empty-VP branch
+		// returned the signer unchecked, which re-based the expected subject for the following presentations)
+		Alt: []Check{CallCheck(Fn("github.com/nuts-foundation/go-did/did", "DID", "Empty"), -1, IsTrue)}})
 	pk := p.Func(iam, "", "validatePKCEParams")
 	r.Gate(Gate{ID: "C02.inner.pkce.s256-only", Fn: pk, Effect: ReturnsBool(0, true), Check: CmpCheck("ChallengeMethod == \"S256\"", token.EQL, FieldV("PKCEParams", "ChallengeMethod"), StrV("S256"), true)})
 	r.Gate(Gate{ID: "C02.inner.pkce.challenge-equals", Fn: pk, Effect: ReturnsBool(0, true), Check: CmpCheck("challenge == params.Challenge", token.EQL, AnyV(), FieldV("PKCEParams", "Challenge"), true)})
@@ -128,9 +130,7 @@ func c02(r *Report) {
 	in := p.Func(iam, "Wrapper", "introspectAccessToken")
 	active := ReturnsNonNil(0)
 	r.Gate(Gate{ID: "C02.introspect.known-token", Fn: in, Effect: active, Check: ErrCheck(StoreOp("accessTokenServerStore", "Get"))})
-	r.ArgIs("C02.introspect.expiry-compared-with-now.argument", in, Fn("std:time", "Time", "Before"), 0, NowV(), 1)
-	r.ArgIs("C02.introspect.expiry-compared-with-now.receiver", in, Fn("std:time", "Time", "Before"), -1, FieldV("AccessToken", "Expiration"), 1)
-	r.Gate(Gate{ID: "C02.introspect.not-expired", Fn: in, Effect: active, Check: CallCheck(Fn("std:time", "Time", "Before"), -1, IsFalse)})
+	r.Gate(Gate{ID: "C02.introspect.not-expired", Fn: in, Effect: active, Check: TimeOrder("token.Expiration is before time.Now() is false", FieldV("AccessToken", "Expiration"), NowV(), IsFalse)})
 	c02IntrospectLiteral(r, in)
 	c02Reserved(r, in)
 	c02MarshalOrder(r)
@@ -524,13 +524,14 @@ func c02SubjectCarried(r *Report, id string, fn *ssa.Function) {
 		return
 	}
 	key := id + " @ " + r.P.FuncName(fn)
-	calls := Calls(fn, Fn("auth/api/iam", "", "validatePresentationSigner"))
+	calls := r.P.CallsNear(fn, Fn("auth/api/iam", "", "validatePresentationSigner"))
 	r.Sites += len(calls)
 	if len(calls) != 1 {
 		r.Lost(key, rule, fmt.Sprintf("%d validatePresentationSigner calls", len(calls)))
 		return
 	}
 	call := calls[0].(*ssa.Call)
+	fn = call.Parent() // the loop may have moved into a helper together with the call
 	l := InnermostLoop(Loops(fn), call.Block())
 	if l == nil {
 		r.Bad(key, rule, r.P.Pos(call.Pos()), "the signer check is not in a loop over the presentations")
